@@ -87,7 +87,9 @@ TRegResp(e) ==
 TTokReq(e) ==
   /\ TokSend(e.c)
   /\ Check11 => /\ lastSent'.k = (IF e.method = "POST" THEN "tokPOST" ELSE "tokGET")
-                /\ lastSent'.to = e.to
+                /\ lastSent'.to = e.to       \* (the harness logs the realm's name only when host, path and account
+                                             \*  are exactly those of a realm a challenge meant, else the raw URL)
+                /\ e.svcok                   \* the service value is the (unescaped) one of that challenge
   /\ CredOK(lastSent'.cred, e.cred, calls[e.c].h)
   /\ Check10 => /\ lastSent'.scope = ToSet(e.scope)
                 /\ lastSent'.text = "chal" => e.kept
